@@ -24,7 +24,13 @@ pub struct C19;
 
 struct Setup { tables: Tables, stmt: Statement, files: Vec<Vec<String>>, joined: Option<PathBuf>, tag: u64, aggregate: bool }
 
-fn file_bytes(lines: &[String]) -> Vec<u8> { lines.iter().map(|l| format!("{}\n", l)).collect::<String>().into_bytes() }
+/// marker for a line that is not valid UTF-8 (cases are JSON texts): written to the file as the bytes FF FE
+pub const BAD_LINE: &str = "\u{1}not-utf8";
+fn file_bytes(lines: &[String]) -> Vec<u8> {
+    let mut out = Vec::new();
+    for l in lines { if l == BAD_LINE { out.extend_from_slice(&[0xff, 0xfe, b'x']); } else { out.extend_from_slice(l.as_bytes()); } out.push(b'\n'); }
+    out
+}
 
 /// the first `m` lines of the input, keeping the file structure
 fn truncate(files: &[Vec<String>], m: usize) -> Vec<Vec<String>> {
@@ -61,7 +67,8 @@ pub fn gen_case(rng: &mut Rng, kind: &str) -> J {
     let t = std_table(rng, "t", js, false);
     let dc = DataCfg::random(rng, t.schema.cols.len(), false);
     let nfiles = 1 + rng.below(3);
-    let files: Vec<Vec<String>> = (0..nfiles).map(|_| { let n = rng.below(9); std_lines(rng, &t, n, &dc) }).collect();
+    let mut files: Vec<Vec<String>> = (0..nfiles).map(|_| { let n = rng.below(9); std_lines(rng, &t, n, &dc) }).collect();
+    if rng.chance(1, 6) { for f in files.iter_mut() { for l in f.iter_mut() { if rng.chance(1, 5) { *l = BAD_LINE.to_owned(); } } } }
     let ecfg = ExprCfg { ill_typed: 0, max_depth: 2, ..Default::default() };
     let shape = rng.below(4);
     let mut joined: Option<Vec<String>> = None;
@@ -69,8 +76,12 @@ pub fn gen_case(rng: &mut Rng, kind: &str) -> J {
         0 => gen_aggregate(rng, &t.schema, &AggCfg { expr: ecfg.clone(), allow_having: true, ..Default::default() }),
         1 | 2 => {
             let mut s = if shape == 1 { gen_select(rng, &t.schema, &StmtCfg { expr: ecfg.clone(), ..Default::default() }) } else { gen_aggregate(rng, &t.schema, &AggCfg { expr: ecfg.clone(), allow_having: false, ..Default::default() }) };
-            let un = 1 + rng.below(30);
-            joined = Some(std_lines(rng, &t, un, &dc));
+            let big = rng.chance(1, 3);
+            let un = 1 + rng.below(if big { 46 } else { 30 });
+            let mut ulines = std_lines(rng, &t, un, &dc);
+            // the loader skips lines that are not valid UTF-8; they are put at any index, preferably where it samples the flag
+            if rng.chance(1, 3) { for (i, l) in ulines.iter_mut().enumerate() { if rng.chance(1, 12) || (i % 10 == 0 && rng.chance(1, 2)) { *l = BAD_LINE.to_owned(); } } }
+            joined = Some(ulines);
             s.join = Some(Join { outer: rng.chance(1, 3), table: "u".into(), file: "@JOINED@".into(), left: ("t".into(), "k".into()), right: ("u".into(), "k".into()) });
             s
         }
@@ -143,7 +154,9 @@ fn check_points(setup: &Setup, obs: &mut Obs) -> Verdict {
         let (want, ref_ok) = reference(i.min(total), &mut refs);
         if !ref_ok { continue; }
         if let Err(e) = &out.result { push(Violation::new(format!("interrupt|main|{}|error-reported", stype), format!("flag cleared before line {}: {}", i, e.show())), &mut vs); continue; }
-        if out.total_lines != i.min(total) as u64 { push(Violation::new(format!("interrupt|main|{}|lines-consumed-after-clear", stype), format!("flag cleared before line {} of {}: total_lines = {}", i, total, out.total_lines)), &mut vs); }
+        // lines that are not valid UTF-8 are skipped without being presented to the query
+        let presented = setup.files.iter().flatten().take(i.min(total)).filter(|l| l.as_str() != BAD_LINE).count();
+        if out.total_lines != presented as u64 { push(Violation::new(format!("interrupt|main|{}|lines-consumed-after-clear", stype), format!("flag cleared before line {} of {}: total_lines = {}", i, total, out.total_lines)), &mut vs); }
         // every remaining file may have had one line fetched and discarded, never more
         if *pulled_after.borrow() > setup.files.len() { push(Violation::new(format!("interrupt|main|{}|reader-kept-pulling", stype), format!("flag cleared before line {}: {} more lines pulled from the reader", i, pulled_after.borrow())), &mut vs); }
         if out.printed != want { push(Violation::new(format!("interrupt|main|{}|output-differs", stype), format!("flag cleared before line {} of {}: printed {:?}, a run over exactly the first {} lines prints {:?}", i, total, out.printed.iter().take(4).collect::<Vec<_>>(), i, want.iter().take(4).collect::<Vec<_>>())), &mut vs); }
@@ -151,7 +164,7 @@ fn check_points(setup: &Setup, obs: &mut Obs) -> Verdict {
 
     // (b) flag cleared while the joined file is loaded
     if let Some(jp) = &setup.joined {
-        let jn = std::fs::read_to_string(jp).map(|s| s.lines().count()).unwrap_or(0);
+        let jn = std::fs::read(jp).map(|s| s.iter().filter(|b| **b == b'\n').count()).unwrap_or(0);
         for j in 0..jn {
             let after = Rc::new(RefCell::new(0usize));
             let a2 = after.clone();
@@ -193,7 +206,8 @@ fn check_points(setup: &Setup, obs: &mut Obs) -> Verdict {
             }
             if !ok || m > total { continue; }
             if let Err(e) = &out.result { push(Violation::new("interrupt|printer|select|error-reported", format!("flag cleared after record {}: {}", n, e.show())), &mut vs); continue; }
-            if out.total_lines != m as u64 { push(Violation::new("interrupt|printer|select|lines-consumed-after-clear", format!("flag cleared after record {} (produced by line {}): total_lines = {}", n, m, out.total_lines)), &mut vs); }
+            let presented = setup.files.iter().flatten().take(m).filter(|l| l.as_str() != BAD_LINE).count();
+            if out.total_lines != presented as u64 { push(Violation::new("interrupt|printer|select|lines-consumed-after-clear", format!("flag cleared after record {} (produced by line {}): total_lines = {}", n, m, out.total_lines)), &mut vs); }
             if out.printed != want { push(Violation::new("interrupt|printer|select|output-differs", format!("flag cleared after record {}: printed {} records, expected the {} records of the first {} lines", n, out.printed.len(), want.len(), m)), &mut vs); }
         }
     }
@@ -212,7 +226,8 @@ fn check_thread(setup: &Setup, obs: &mut Obs) -> Verdict {
         let out = run(setup, &setup.files, running, None, "t");
         let _ = th.join();
         obs.evals += 1;
-        let m = out.total_lines as usize;
+        // total_lines counts the lines presented to the query: map it back to an index into the files (skipped lines that are not valid UTF-8)
+        let m = { let mut seen = 0usize; let mut raw = 0usize; for l in setup.files.iter().flatten() { if seen == out.total_lines as usize { break; } raw += 1; if l.as_str() != BAD_LINE { seen += 1; } } raw };
         let want = run(setup, &truncate(&setup.files, m), Arc::new(AtomicBool::new(true)), None, "tr");
         if want.result.is_err() { continue; }
         let total: usize = setup.files.iter().map(|f| f.len()).sum();
